@@ -909,18 +909,20 @@ def x_pair_sweep(backend):
     for two, fams in ((False, fams1), (True, fams2)):
         for name, nextra in fams.items():
             a = {"Vgate": 0.05, "Kgate": 0.25, "CKgate": 0.25, "Rgate": 0.75, "BSgate": 0.5, "MZgate": 0.5}.get(name, 0.25 * k)
-            for rel in ("same", "cancel", "near", "zero", "diffextra", "nearextra", "other"):
-                if rel in ("diffextra", "nearextra") and not nextra:
+            for rel in ("same", "cancel", "near", "near6", "zero", "diffextra", "nearextra", "zero-diffextra", "diffextra-zero", "other"):
+                if rel in ("diffextra", "nearextra", "zero-diffextra", "diffextra-zero") and not nextra:
                     continue
+                if rel == "near6" and weak:
+                    continue   # (below what a truncated Fock space resolves)
                 for da in (False, True):
                     for db in (False, True):
                         ea = a
-                        eb = {"same": a, "cancel": -a, "near": -a + 2.0 ** -9, "zero": a, "diffextra": a, "nearextra": a, "other": 0.5 * a}[rel]
-                        if rel == "zero":
+                        eb = {"same": a, "cancel": -a, "near": -a + 2.0 ** -9, "near6": -a + 2.0 ** -19, "zero": a, "diffextra": a, "nearextra": a, "zero-diffextra": a, "diffextra-zero": 0.0, "other": 0.5 * a}[rel]
+                        if rel in ("zero", "zero-diffextra"):
                             ea = 0.0
                         pa, pb = (-ea if da else ea), (-eb if db else eb)
                         xa = [0.5] * nextra
-                        xb = [{"diffextra": 0.25, "nearextra": 0.5 + 2.0 ** -8}.get(rel, 0.5)] * nextra
+                        xb = [{"diffextra": 0.25, "zero-diffextra": 0.25, "diffextra-zero": 0.25, "nearextra": 0.5 + 2.0 ** -8}.get(rel, 0.5)] * nextra
                         out.append((two, "%s:%s" % (name, rel), [[name, [pa] + xa, da, {}], [name, [pb] + xb, db, {}]]))
     return out
 
@@ -943,7 +945,7 @@ def x_channel_sweep(backend):
         R = lambda t: np.array([[math.cos(t), -math.sin(t)], [math.sin(t), math.cos(t)]])
         S = R(0.4) @ np.diag([math.exp(-0.3), math.exp(0.3)]) @ R(-1.1)
         Si = np.linalg.inv(S)
-        for nm, B in (("inv", Si), ("minus-inv", -Si), ("near-inv", Si @ R(2e-4)), ("same", S), ("other", R(0.9) @ np.diag([1.25, 0.8]))):
+        for nm, B in (("inv", Si), ("minus-inv", -Si), ("near-inv", Si @ R(2e-4)), ("near6-inv", Si @ R(2e-6)), ("same", S), ("other", R(0.9) @ np.diag([1.25, 0.8]))):
             out.append((False, "GaussianTransform:" + nm, [["GaussianTransform", [{"mat": S.tolist()}], False, {}], ["GaussianTransform", [{"mat": B.tolist()}], False, {}]]))
         out.append((False, "Interferometer:near", [["Interferometer", [ph(1.0, 0.7)], False, {}], ["Interferometer", [ph(1.0, -0.7 + 2e-4)], False, {}]]))
     if backend == "bosonic":
